@@ -63,6 +63,11 @@ def gen_class(r):
             items.append(lo + "-" + hi)
         else:
             items.append(r.choice(["\U0001F600", "\u00e9", "\u2028", "A-Z", "0-9", "!-/"]))
+    if r.random() < 0.15:
+        items.insert(r.randrange(len(items) + 1), ".")       # a dot inside a class is a literal dot
+    if r.random() < 0.12:
+        items.append(r.choice(["\\\\", "\\]", "\\\\\\]", "\\["]))    # the class ends in an escape: \\ or \] right before the closing bracket
+        last_dash = False
     return "[" + ("^" if neg else "") + ("-" if first_dash else "") + "".join(items) + ("-" if last_dash else "") + "]"
 
 
